@@ -13,20 +13,20 @@ Definition returns_envelope (b : beh) : bool :=
 Definition is_cpe (f : pfinal) : bool :=
   match f with FRaise (XCls c) => exn_eqb c ChildProcessErrorC | _ => false end.
 (* the outcome of the model when nothing kills the child from outside *)
+Definition is_unp (f : pfinal) : bool :=
+  match f with FRaise (XCls c) => exn_eqb c UnpickleErrC | _ => false end.
 Definition model_final (b : beh) (f : pfinal) : bool :=
   if returns_envelope b then match f with FRaise XRetAttr => true | _ => false end
   else if callee_reports b then final_meets (demanded b) f
-  else is_cpe f.
-
-Lemma exn_eqb_eq : forall a c, exn_eqb a c = true -> a = c.
-Proof.
-  induction a as [|x a IH]; intros [|y c] H; cbn in H; try discriminate; [reflexivity|].
-  apply andb_true_iff in H as [H1 H2]. apply Nat.eqb_eq in H1. subst. f_equal. now apply IH.
-Qed.
+  else is_cpe f || (b_unp b && is_unp f).
 
 Section Facts.
   Variable P : list pop.
   Variable C : list cop.
+  (* strict = false: where unpickling in the parent raises (b_unp) only the OUTCOME is demanded of a
+     finished invocation; strict = true: also there nothing may be left behind.  The programs of
+     the current tree pass the first and fail the second (Props/C17.v). *)
+  Variable strict : bool.
 
   (* termination measure: every enabled step strictly decreases it (checked, not assumed) *)
   Definition measure_p (s : lst) : nat :=
@@ -61,7 +61,11 @@ Section Facts.
     (* F3: a finished invocation meets the specification (outside the envelope region: there
        it still exits cleanly) *)
     Definition f_done (s : lst) : bool :=
-      negb (p_done s) || (if returns_envelope b then clean_exit s else spec_ok b s).
+      negb (p_done s) ||
+      (if returns_envelope b then clean_exit s
+       else if b_unp b && negb strict
+            then match p_stat (ps s) with PSDone f => outcome_ok b (c_killed (cs s)) f | _ => false end
+            else spec_ok b s).
     (* F3': the exact outcome of the model when the child was not killed from outside *)
     Definition f_exact (s : lst) : bool :=
       match p_stat (ps s) with
@@ -87,24 +91,27 @@ Section Facts.
   (* ---- transfer along agreeing behaviours ------------------------------------------------ *)
   Lemma reports_ext : forall b b', beh_agree C b b' -> callee_reports b = callee_reports b'.
   Proof.
-    intros b b' (Ho & _ & Hp & _ & _ & Hi). unfold callee_reports. rewrite Ho, Hp, (Hi ExceptionC); [reflexivity|].
+    intros b b' (Ho & _ & Hp & _ & _ & Hu & Hi). unfold callee_reports. rewrite Ho, Hp, Hu, (Hi ExceptionC); [reflexivity|].
     apply nodup_In. right; now left.
   Qed.
   Lemma demanded_ext : forall b b', beh_agree C b b' -> demanded b = demanded b'.
   Proof.
     intros b b' Hag. unfold demanded. rewrite (reports_ext _ _ Hag).
-    destruct Hag as (Ho & _ & _ & _ & _ & Hi). rewrite Ho, (Hi StopIterationC); [reflexivity | apply nodup_In; now left].
+    destruct Hag as (Ho & _ & _ & _ & _ & _ & Hi). rewrite Ho, (Hi StopIterationC); [reflexivity | apply nodup_In; now left].
   Qed.
   Lemma envelope_ext : forall b b', beh_agree C b b' -> returns_envelope b = returns_envelope b'.
   Proof.
     intros b b' Hag. unfold returns_envelope. rewrite (reports_ext _ _ Hag).
     destruct Hag as (Ho & _ & _ & _ & Hr & _). now rewrite Ho, Hr.
   Qed.
+  Lemma unp_ext : forall b b', beh_agree C b b' -> b_unp b = b_unp b'.
+  Proof. intros b b' (_ & _ & _ & _ & _ & Hu & _). exact Hu. Qed.
   Lemma f_all_ext : forall b b' s, beh_agree C b b' -> f_all b s = f_all b' s.
   Proof.
     intros b b' s Hag. unfold f_all, f_progress, f_done, f_exact, f_nonblocking, f_child_free, sync_blocked,
       parent_enabled, spec_ok, outcome_ok, model_final.
-    rewrite (demanded_ext _ _ Hag), (reports_ext _ _ Hag), (envelope_ext _ _ Hag), !(lstep_ext P C b b' 0 _ s Hag).
+    rewrite (demanded_ext _ _ Hag), (reports_ext _ _ Hag), (envelope_ext _ _ Hag), (unp_ext _ _ Hag),
+      !(lstep_ext P C b b' 0 _ s Hag).
     reflexivity.
   Qed.
 
@@ -158,14 +165,26 @@ Section Facts.
     intros b s Hr Hc. facts b s Hr. unfold f_child_free in H0. rewrite Hc in H0. exact H0.
   Qed.
 
-  Lemma done_spec : forall b s, lreach P C b s -> p_done s = true -> returns_envelope b = false -> spec_ok b s = true.
+  Lemma done_spec : forall b s, lreach P C b s -> p_done s = true -> returns_envelope b = false ->
+    b_unp b && negb strict = false -> spec_ok b s = true.
   Proof.
-    intros b s Hr Hd He. facts b s Hr. unfold f_done in H3. rewrite Hd, He in H3. exact H3.
+    intros b s Hr Hd He Hu. facts b s Hr. unfold f_done in H3. rewrite Hd, He, Hu in H3. exact H3.
   Qed.
 
-  Lemma done_clean : forall b s, lreach P C b s -> p_done s = true -> clean_exit s = true.
+  (* the outcome alone needs no guard on unpickling *)
+  Lemma done_outcome : forall b s f, lreach P C b s -> p_stat (ps s) = PSDone f -> returns_envelope b = false ->
+    outcome_ok b (c_killed (cs s)) f = true.
   Proof.
-    intros b s Hr Hd. facts b s Hr. unfold f_done in H3. rewrite Hd in H3. cbn [negb orb] in H3.
+    intros b s f Hr Hf He. facts b s Hr. unfold f_done, p_done in H3. rewrite Hf, He in H3. cbn [negb orb] in H3.
+    destruct (b_unp b && negb strict).
+    - exact H3.
+    - unfold spec_ok in H3. rewrite Hf in H3. now apply andb_true_iff in H3.
+  Qed.
+
+  Lemma done_clean : forall b s, lreach P C b s -> p_done s = true -> b_unp b && negb strict = false ->
+    clean_exit s = true.
+  Proof.
+    intros b s Hr Hd Hu. facts b s Hr. unfold f_done in H3. rewrite Hd, Hu in H3. cbn [negb orb] in H3.
     destruct (returns_envelope b); [exact H3|]. unfold spec_ok in H3.
     destruct (p_stat (ps s)); try discriminate. now apply andb_true_iff in H3.
   Qed.
@@ -262,8 +281,7 @@ Section Facts.
   Proof.
     intros b s f Hr He Hrep Hf Hk.
     assert (Hd : p_done s = true) by (unfold p_done; now rewrite Hf).
-    pose proof (done_spec b s Hr Hd He) as Hs.
-    unfold spec_ok in Hs. rewrite Hf, Hk in Hs. apply andb_true_iff in Hs as [Hs _].
+    pose proof (done_outcome b s f Hr Hf He) as Hs. rewrite Hk in Hs.
     unfold outcome_ok in Hs. rewrite andb_false_l, orb_false_r in Hs.
     unfold demanded in Hs. rewrite Hrep in Hs.
     destruct (b_out b).
